@@ -35,6 +35,12 @@ def gen_scenario(ctx, k):
     for b in cfg['boards']:
         if rng.random() < 0.5:
             b['uid'] = bytes([b['uid'][0] | 0x80]) + b['uid'][1:]
+    # several track outputs and at least one train: bidib_stop and bidib_send_sys_reset command every train on every CONNECTED track output
+    for b in cfg['boards']:
+        if rng.random() < 0.4:
+            b['uid'] = bytes([b['uid'][0] | 0x10]) + b['uid'][1:]
+    if not cfg['trains']:
+        cfg['trains'].append({'id': 'xt15', 'addr': cfggen.free_dcc(cfg, (0x3E, 0x15)), 'steps': rng.choice(cfggen.SPEED_STEPS), 'calibration': None, 'peripherals': None})
     uids = set()
     for b in cfg['boards']:
         while b['uid'] in uids:
@@ -221,6 +227,21 @@ def evaluate(ctx, r, cfg, nodes, notices, pings, tabchange, meta, hooks=None):
             if rv != 0 or len(tx) != 1 or tuple(tx[0]['addr']) != tuple(addr):
                 ctx.violation('wrong-destination', 'ping', f'board {bid} is connected at {addr} but bidib_ping returned {rv} and sent to {[e["addr"] for e in tx]}', r.scenario, r.flavour, meta)
                 return
+    # commands of bidib_stop (and of the second enumeration) are addressed to current addresses of connected boards only; train and
+    # track-output commands to connected track outputs only
+    conn_now = {tuple(m.addr[b['id']]) for b in cfg['boards'] if m.connected(b['id'])}
+    to_now = {tuple(m.addr[b['id']]) for b in cfg['boards'] if m.connected(b['id']) and cfggen.is_track_output(b)}
+    ci = next((i for i, e in enumerate(r.events) if e.get('e') == 'call' and e.get('f') == 'bidib_stop'), None)
+    if ci is not None:
+        for e in r.events[ci:]:
+            if e.get('e') != 'txm':
+                continue
+            a = tuple(e['addr'])
+            cs = e['type'] in (C('MSG_CS_DRIVE'), C('MSG_CS_SET_STATE'))
+            if a not in (to_now if cs else conn_now):
+                ctx.violation('wrong-destination', 'stop', f'bidib_stop sent type {e["type"]:#x} to {a}; connected boards are at {sorted(conn_now)}, connected track outputs at {sorted(to_now)}', r.scenario, r.flavour, meta)
+                return
+        ctx.count('stop_destinations_checked')
     depth = max([0] + [3 if a[2] else 2 if a[1] else 1 if a[0] else 0 for a, _u in nodes])
     if notices or depth >= 2:
         ctx.nontrivial.add(meta['digest'])
